@@ -1,3 +1,4 @@
+import Ruint.Gen.WordsKernels
 import Ruint.Model.MulKernels
 import Ruint.Model.ShiftKernels
 import Ruint.Model.Add
@@ -105,11 +106,12 @@ def handle (args : List String) (_impl : String) : String × String :=
         (outLC (submulNx1 W lhs a b), outLC (specBorrow W n (val lhs) (val a * b)))
     | "adcn" =>
         let r := parseLimbs x2; let c := parseHex x3
-        (outOLC (adcN W lhs r c),
+        -- model column: the function GENERATED from src/algorithms/add.rs on its domain (Props/C15: gen_adc_n_eq)
+        (outOLC (if n ≤ r.length then some (Ruint.Gen.adc_n (n + 1) lhs r c) else adcN W lhs r c),
          if r.length < n then "panic" else outLC (specCarry W n (val lhs + val (r.take n) + c)))
     | "sbbn" =>
         let r := parseLimbs x2; let c := parseHex x3
-        (outOLC (sbbN W lhs r c),
+        (outOLC (if n ≤ r.length then some (Ruint.Gen.sbb_n (n + 1) lhs r c) else sbbN W lhs r c),
          if r.length < n then "panic" else outLC (specBorrow W n (val lhs) (val (r.take n) + c)))
     | "adc" =>
         let l := parseHex x1; let r := parseHex x2; let c := parseHex x3
